@@ -725,6 +725,14 @@ class Unit:
                     vac = f" if crate::vac_choice({len(self.vac_ids)}) {{ assert(false); /*VAC:{vid}*/ }} "
                     self.vac_ids.append(vid)
                     self.vac_files[vid] = relfile
+                r4n = opts.get("r4n")
+                if lp["kind"] == "for" and r4n is not None and (r4n is True or k in {int(x) for x in r4n.split(",")}):
+                    # R4 (native form): Verus's own `for x in it: E invariant ..` loop over a vstd-specified iterator (slices): only the
+                    # ghost iterator name and the invariant are added
+                    is_, ie = lp["iter"]
+                    edits.append(Edit(is_, is_, lambda r, k=k: f"it__{k}: "))
+                    edits.append(Edit(le_, le_, lambda r: ";", prio=-2))
+                    self.log("R4", relfile, src, ls_, "`for P in E` -> Verus-native `for P in it__k: E invariant ..` (no desugaring)")
                 if lp["kind"] == "for" and r4 is not None and (r4set is None or k in r4set):
                     ps, pe = lp["pat"]
                     is_, ie = lp["iter"]
@@ -750,7 +758,7 @@ class Unit:
                         txt = (f" proof {{ {vac} }} " if vac else "") + split_hint(start_hint)
                         edits.append(Edit(lbs + 1, lbs + 1, lambda r, txt=txt: txt))
                     if end_hint.strip():
-                        edits.append(Edit(lbe - 1, lbe - 1, lambda r, end_hint=end_hint: f" proof {{ {end_hint} }} "))
+                        edits.append(Edit(lbe - 1, lbe - 1, lambda r, end_hint=end_hint: f" ; proof {{ {end_hint} }} "))
                     if after.strip():
                         edits.append(Edit(le_, le_, lambda r, after=after: ";" + split_hint(after)))
                     before = "".join(parts.get(("beforeloop", k), []))
